@@ -106,11 +106,22 @@ def _sparse_cases(grids, bcs, variants, tables):
     return out
 
 
+GENERIC_N = [7, 8, 12]
+
+
+def _generic_cases(ns, tables):
+    """Sparse chain pencils without boundary-condition rows: every eigenvalue simple, so that every number of modes
+    up to the largest one the ARPACK drivers deliver (and the default of 6) is an admissible request."""
+    return [{'path': 'sparse', 'generic': n, 'grid': [n, 0, 0], 'bc': 'none', 'variant': var, 'gen': gen, 'table': t}
+            for n in ns for var in ['sym', 'herm', 'csym', 'unsym'] for gen in ['gen', 'std'] for t in tables]
+
+
 def generate(tier, seed):
     t = seed % re_.NTABLES
     if tier == 'quick':
         yield from _dense_cases(DENSE_N, [t])
         yield from _dense_special_cases([t, (t + 1) % re_.NTABLES])
+        yield from _generic_cases(GENERIC_N, [t])
         yield from _sparse_cases(SPARSE_GRIDS_Q, BCS[:2], ['sym', 'herm', 'csym', 'unsym'], [t])
         return
     # cheap levels first, so that the runner's time prediction for the next level is not dominated by the sparse cases
@@ -122,6 +133,8 @@ def generate(tier, seed):
     base = {(c['n'], c['table']) for c in _dense_cases(DENSE_N, [t])}
     yield from [c for c in _dense_cases(list(range(1, 9)) + [12], list(range(re_.NTABLES)))
                 if (c['n'], c['table']) not in base]
+    yield {'__level__': 'sparse chain pencils n in 7,8,12,20: every number of modes 1..n-2 (n-1 real symmetric), default'}
+    yield from _generic_cases(GENERIC_N + [20], [t, (t + 1) % re_.NTABLES, (t + 2) % re_.NTABLES])
     yield {'__level__': 'sparse design lattice (3 grids, 2 bc, 4 variants; table of the seed)'}
     yield from _sparse_cases(SPARSE_GRIDS_Q, BCS[:2], ['sym', 'herm', 'csym', 'unsym'], [t])
     seen = {(tuple(c['grid']), c['bc'], c['table']) for c in
@@ -333,18 +346,22 @@ def exec_sparse(case):
     import pymoto as pym
     grid, bc, var, gen, t = tuple(case['grid']), case['bc'], case['variant'], case['gen'], case['table']
     J = Judge(case)
-    nx, ny, nz = grid
-    dom = pym.DomainDefinition(nx, ny, nz)
-    bcd, dim = bc_dofs(grid, bc)
-    x = pym.Signal('x', re_.x_table(dom.nel, t))
-    mK = pym.AssembleStiffness(x, domain=dom, bc=bcd, bcdiagval=BCDIAG_K)
-    mK.response()
-    K0 = mK.sig_out[0].state
-    M0 = None
-    if gen == 'gen':
-        mM = pym.AssembleMass(x, domain=dom, bc=bcd, ndof=dim, bcdiagval=BCDIAG_M)
-        mM.response()
-        M0 = mM.sig_out[0].state
+    generic = case.get('generic')
+    if generic:
+        K0, M0 = re_.chain_pencil(int(generic), t, gen == 'gen')
+    else:
+        nx, ny, nz = grid
+        dom = pym.DomainDefinition(nx, ny, nz)
+        bcd, dim = bc_dofs(grid, bc)
+        x = pym.Signal('x', re_.x_table(dom.nel, t))
+        mK = pym.AssembleStiffness(x, domain=dom, bc=bcd, bcdiagval=BCDIAG_K)
+        mK.response()
+        K0 = mK.sig_out[0].state
+        M0 = None
+        if gen == 'gen':
+            mM = pym.AssembleMass(x, domain=dom, bc=bcd, ndof=dim, bcdiagval=BCDIAG_M)
+            mM.response()
+            M0 = mM.sig_out[0].state
     K, M = re_.pencil_variant(K0, M0, var, t)
     n = K.shape[0]
     Kd = K.toarray()
@@ -352,6 +369,8 @@ def exec_sparse(case):
     Wr, Qr = re_.ref_eig(Kd, Md)
     rho = re_.bilinear_ratio(Qr, Md)
     art = BCDIAG_K / (BCDIAG_M if M is not None else 1.0)
+    if generic:
+        art = 1e30          # no boundary-condition rows: the whole spectrum is physical
     if var == 'csym':
         art = art * (1 + 0.05j)
     phys = re_.physical_spectrum(Wr, art, reltol=0.3)   # artificial ones (incl. K diag(s) scaling) are within 20 %
@@ -362,7 +381,15 @@ def exec_sparse(case):
                   'inside': float(physr[3] + 0.37 * (physr[4] - physr[3])) if len(physr) > 4 else None,
                   'above': float(1.1 * np.max(np.abs(phys))) if len(phys) else None}
     flags = [None] + ([True] if hermitian_pencil else [])
-    for nmodes in NMODES:
+    # the largest admissible counts of the ARPACK drivers (k < n for the real symmetric one, k < n-1 otherwise) and the
+    # documented default (6 modes) -- on pencils small enough to keep the cost down
+    nm_tokens = list(NMODES)
+    if generic:
+        kmax = n - 1 if realsym else n - 2
+        nm_tokens = [k for k in range(1, n - 2)] + ['n-2'] + (['n-1'] if realsym else []) + \
+                    (['default'] if 6 <= kmax else [])
+    for nmtok in nm_tokens:
+        nmodes = {'n-1': n - 1, 'n-2': n - 2, 'default': 6}.get(nmtok, nmtok)
         for sname in SIGMAS:
             sg = sig_values[sname]
             if sg is None:
@@ -376,7 +403,7 @@ def exec_sparse(case):
                     reason = 'isotropic_reference_vector'
             for flag in flags:
                 for sortname in ('default', 'desc'):
-                    sub = {'nmodes': nmodes, 'sigma': sname, 'herm': flag, 'sort': sortname}
+                    sub = {'nmodes': nmtok, 'sigma': sname, 'herm': flag, 'sort': sortname}
                     if not _selected(case, sub):
                         continue
                     if reason is not None:
@@ -386,6 +413,8 @@ def exec_sparse(case):
                            'shift': 'zero' if sg == 0.0 else 'nonzero'}
                     sigs = [pym.Signal('K', K.copy())] + ([pym.Signal('M', M.copy())] if M is not None else [])
                     kw = {'nmodes': nmodes, 'sigma': sg}
+                    if nmtok == 'default':
+                        del kw['nmodes']
                     if flag is not None:
                         kw['hermitian'] = flag
                     if re_.SORTINGS[sortname] is not None:
@@ -408,7 +437,7 @@ def exec_sparse(case):
                     J.chk(d <= VAL_TOL * wscale, 'closest_to_shift', sub, _sig(sig, 'gen', 'sigma'), W=W,
                           expected=expect, sigma=sg, dist=d, rel=mag(d / wscale))
                     _common_pair_checks(J, sub, sig, K, M, W, Q, realsym, sortname)
-                    J.outcomes.add(f"sparse/{var}/{gen}/{sname}/k{nmodes}/W{W.dtype.kind}Q{Q.dtype.kind}")
+                    J.outcomes.add(f"sparse/{var}/{gen}/{sname}/k{nmtok}/W{W.dtype.kind}Q{Q.dtype.kind}")
     return _finish(J, case, f"sparse|{grid}|{bc}|{var}|{gen}|{t}")
 
 
